@@ -450,6 +450,12 @@ var viewStructs = map[string]map[string]bool{
 	"cipherSuite":        {},
 }
 
+// replacedFuncs: real functions a stub stands for, with the source text (whitespace-normalised) the stub models
+var replacedFuncs = map[string]string{
+	"addBytesWithLength":         `func addBytesWithLength(b *cryptobyte.Builder, v []byte, n int) { b.AddValue(marshalingFunction(func(b *cryptobyte.Builder) error { if len(v) != n { return fmt.Errorf("invalid value length: expected %d, got %d", n, len(v)) } b.AddBytes(v) return nil })) }`,
+	"marshalingFunction.Marshal": `func (f marshalingFunction) Marshal(b *cryptobyte.Builder) error { return f(b) }`,
+}
+
 // viewOptional: stub fields that exist in only one of the packages
 var viewOptional = map[string]bool{"RetransmitTimer.starts": true}
 
@@ -832,6 +838,21 @@ func checkViews(d *decls, pkgName string) error {
 		flat := strings.Join(strings.Fields(pb.String()), " ")
 		if !okAll || n == 0 || flat != "{ prf, _ := prfAndHashForVersion(version, suite) return prf }" {
 			return fmt.Errorf("view prfForVersion: the real function does not always return prf12(sm3.New) (%q)", flat)
+		}
+	}
+	// functions the stubs REPLACE (a model, not a translation): the real text must be the one the stub was written for
+	for name, want := range replacedFuncs {
+		if !strings.Contains(curStubs, "func addBytesWithLength(") {
+			continue
+		}
+		fd := d.funcs[name]
+		if fd == nil {
+			return fmt.Errorf("stub %s: no such function in the tree", name)
+		}
+		var b bytes.Buffer
+		printer.Fprint(&b, d.fset, fd)
+		if got := strings.Join(strings.Fields(b.String()), " "); got != want {
+			return fmt.Errorf("stub %s: the real function changed (%q)", name, got)
 		}
 	}
 	for _, dc := range fS.Decls {
@@ -3394,7 +3415,7 @@ func translatePackage(repo string, g group, w *strings.Builder, untranslated *[]
 	viewErr := checkViews(d, name)
 	var present []string
 	for _, fn := range wanted[name] {
-		if viewErr != nil && (strings.HasPrefix(fn, "Conn.") || strings.HasPrefix(fn, "halfConn.") || strings.HasPrefix(fn, "RetransmitTimer.") || fn == "masterFromPreMasterSecret" || fn == "keysFromMasterSecret") {
+		if viewErr != nil && (g.sub != "" || g.pkg == "pa" || strings.HasPrefix(fn, "Conn.") || strings.HasPrefix(fn, "halfConn.") || strings.HasPrefix(fn, "RetransmitTimer.") || fn == "masterFromPreMasterSecret" || fn == "keysFromMasterSecret") {
 			*untranslated = append(*untranslated, ns+"."+fn)
 			fmt.Fprintf(w, "-- %s not translated: %v\n\n", fn, viewErr)
 			continue
